@@ -69,14 +69,7 @@ def random_registry_case(rng):
     k = rng.randrange(2, 8)
     cs = []
     for i in range(k):
-        for _ in range(10):
-            c = rich_collector(rng, i + 1)
-            if c['kind'] == 'builtin':
-                break
-            cl = base.claims_of(c['describe'] if c['describe'] is not None else [(f['name'], f['type']) for f in c['families']])
-            if len(set(cl)) == len(cl):
-                break       # no F6 collectors here: that finding belongs to C06
-        cs.append(c)
+        cs.append(rich_collector(rng, i + 1))
     ops = []
     for _ in range(rng.randrange(2, 16)):
         r = rng.random()
@@ -310,7 +303,7 @@ def compare_restricted(reply, results):
         res, calls, expected = r
         m_f, m_c, m_s = sec.split('!')
         mf = [] if m_f == '.' else m_f.split(',')
-        mc = [] if m_c == '.' else m_c.split(',')
+        mc = [] if m_c == '.' else [c for c in m_c.split(',') if c != 'E']     # E = the _EmptyCollector of target info
         ms = [] if m_s == '.' else m_s.split(',')
         if sorted(mf) != sorted(res):
             return 'name set %d: restricted families model %r, implementation %r' % (i, sorted(mf), sorted(res))
